@@ -25,6 +25,14 @@ CHECKS = {
          "Every generated expression is evaluated on every document of the small-scope universe by xml_xpath::query (merged-text view) and by the reference evaluator; node-sets must hold exactly the expected nodes, once, in document order; scalars compare exactly.",
          "Trusts mc/src/model/xpath.rs (DESIGN.md Appendix C) and the node mapping in mc/src/checks/xp.rs; expressions and documents beyond the bounds are not covered; caller bindings are varied in C10.",
          "DESIGN.md §5 C05"),
+ "C07": ("bounded-exhaustive node-set invariants on the implementation's own results: every path of a pool, every ordered pair (union algebra, counts, positional filters) and every triple of a sub-pool (associativity) on every document",
+         "Each node-set the implementation returns is checked for duplicates and document order; A|B against the set union of A and B, commutativity, idempotence, count bound, positional filters on parenthesised unions, associativity.",
+         "Node identity is (kind, XmlNode::id()); document order comes from the harness's own walk, not from XmlNode::order(); no reference evaluator is needed.",
+         "DESIGN.md §5 C07"),
+ "C08": ("metamorphic, bounded-exhaustive: every expression AST in every spelling one deviation away from its unabbreviated and abbreviated base spellings (abbreviation sites, numeric predicates, redundant parentheses, white space per gap) must evaluate identically; operator pairs x operand triples against the prescribed parenthesisation; node-type tests at every step start; lexical disambiguation cases",
+         "All single-deviation respellings of every AST of the C05 families are compared on several documents; every ordered pair of binary operators over an operand pool is compared with the grouping the grammar prescribes.",
+         "White space only between tokens; the reference value is used only to say which side is wrong.",
+         "DESIGN.md §5 C08"),
  "C09": ("bounded-exhaustive products of core functions / operators with argument tuples from string, number and boolean pools, rendered from the AST and compared with a reference XPath 1.0 core library",
          "Every function and operator application over the pools (every arity admitted, one below and one above) is evaluated by xml_xpath::query and by the reference evaluator; values compare exactly (numbers bitwise, NaN canonical).",
          "Trusts mc/src/model/xpath.rs (number <-> string conversions, substring rounding formula, round tie rule, comparison coercions) as the reading of XPath 1.0 sections 3.4, 3.5 and 4; strings outside the pool are not covered.",
